@@ -24,6 +24,8 @@ MENU = [
     L("a"), L("ab"), L("b"), L("ba"), ("re", q("a", "+")), ("re", ("seq", (q("a", "*"), RX["b"]))), ("re", ("seq", (q("a", "?"), RX["b"]))),
     ("re", ("seq", (RX["[ab]"], q("c", "?")))), ("re", RX["[^a]"]), ("re", q("[^a]", "+")), ("re", RX["."]), ("re", q("a", "*")),
     ("re", q(("seq", (RX["a"], RX["b"])), "+")), ("re", q("b", "?")),
+    # two-byte patterns that start with an inverted set / the wildcard: the continuation runs through an Else transition into a non-accepting state
+    ("re", ("seq", (RX["[^a]"], RX["b"]))), ("re", ("seq", (RX["."], RX["c"]))),
 ]
 
 
@@ -247,6 +249,12 @@ def run(tier, seed):
         for pr in ((2, 2, 0), (2, 0, 2), (0, 2, 2), (1, 1, 1), (0, 1, 1)):
             items.append(("case", (cl, "plain", True, pr)))
             items.append(("case", (cl, "lexer", True, pr)))
+            # ... and with every other clause carrying a consuming body (a tie between an action-only clause and one with a body)
+            items.append(("case", (cl, "mixbody", True, pr)))
+    for k, combo in enumerate(itertools.permutations(idx, 2)):
+        cl = tuple((c08.PATS[i],) for i in combo)
+        for pr in ((1, 1), (2, 2), (0, 0)):
+            items.append(("case", (cl, "mixbody", True, pr)))
     # the same pattern (or label set) in two clauses, next to each other and apart
     for i in idx:
         for j in idx[:6]:
